@@ -338,6 +338,8 @@ def nest_strategy(tier):
             "coreCell": st.tuples(st.integers(-9, 9), st.integers(-9, 9)).map(list),
             "zbounds": _bounds(2, 9),
             "k": st.integers(0, 7),
+            # axial level of the cell of the (radial) core grid that holds the assembly: indices add in every direction
+            "coreK": st.sampled_from([0, 0, 1, 2, 3, 5]),
             "pinPitch": st.floats(0.1, 3.0),
             "pinKind": st.sampled_from(["hexF", "hexC", "cart", "axial"]),
             "pinCell": st.tuples(st.integers(-6, 6), st.integers(-6, 6)).map(list),
@@ -393,6 +395,14 @@ def nest_execute(case):
     out.check(_close(ax.getCellBase((0, 0, k)), (0, 0, zb[k]), tolz) and _close(ax.getCellTop((0, 0, k)), (0, 0, zb[k + 1]), tolz),
               "axial/base-top", "k=%d" % k)
     out.check(ax.isAxialOnly and len(ax) == len(zb), "axial/axial-only", "axial grid flags")
+    # there is no cell below the first bound: centre and base refuse a negative index ("Bounds-defined indices may not be
+    # negative") instead of wrapping around to the last bound (the top of index -1 is the first bound and is not judged)
+    for nm, fn in (("centre", ax.getCoordinates), ("base", ax.getCellBase)):
+        try:
+            got = fn((0, 0, -1 - case["k"] % 3))
+            out.fail("axial/negative-index-not-refused", "%s of index %d returned %s (bounds %s)" % (nm, -1 - case["k"] % 3, list(got), zb))
+        except IndexError:
+            pass
     ax2 = _rebuild(ax)
     out.check(_close(ax2.getCoordinates((0, 0, k)), c, 0.0) and ax2.isAxialOnly and ax2.reduce()[2:] == ax.reduce()[2:], "axial/reduce", "rebuilt axial grid differs")
     # offsets apply to bounds-defined dimensions as well (centre/base/top = bounds value + offset)
@@ -460,10 +470,13 @@ def nest_execute(case):
         a_idx = (0, 0, 0)
         out.check(tuple(assem.spatialLocator.getCompleteIndices()) == (0, 0, 0), "nest/free-complete-indices", "coordinate location indices")
     else:
-        assem.spatialLocator = core.spatialGrid[ci, cj, 0]
-        a_xyz = base + np.array((ex[0], ex[1], 0.0))
-        a_idx = (ci, cj, 0)
-        out.check(tuple(assem.spatialLocator.getCompleteIndices()) == (ci, cj, 0), "nest/assembly-complete-indices", "assembly locator")
+        cK = case.get("coreK", 0)
+        if cK:
+            out.label("parent-cell-on-axial-level>0")
+        assem.spatialLocator = core.spatialGrid[ci, cj, cK]
+        a_xyz = base + np.array((ex[0], ex[1], 0.0))  # (pitch-defined radial grids have no axial step: the level does not move the cell)
+        a_idx = (ci, cj, cK)
+        out.check(tuple(assem.spatialLocator.getCompleteIndices()) == (ci, cj, cK), "nest/assembly-complete-indices", "assembly locator")
     g1 = assem.spatialLocator.getGlobalCoordinates()
     out.check(_close(g1, a_xyz, tol), "nest/depth1-global", lambda: "assembly at %s expected %s" % (list(g1), list(a_xyz)))
     if depth >= 2:
